@@ -467,9 +467,9 @@ func (s *sut) obs(full bool, hs []int, dumps []int) tr.E {
 // ------------------------------------------------------------------ statistics (evidence only)
 
 type stats struct {
-	Events, Writes, Scans, Sweeps, Changes, MaxHeight, MaxKeys, Clones, Panics, RaceRounds, RaceKept, Compound, Cold, Stuck, Retained int
-	Heights                                                                                                                           map[int]int
-	Degrees                                                                                                                           map[int]int
+	Events, Writes, Scans, Sweeps, Changes, MaxHeight, MaxKeys, Clones, Panics, RaceRounds, RaceKept, Compound, Cold, Stuck, Retained, CloneShapes, Drains, Duels, ReplaceSweeps int
+	Heights                                                                                                                                                       map[int]int
+	Degrees                                                                                                                                                       map[int]int
 }
 
 var st = stats{Heights: map[int]int{}, Degrees: map[int]int{}}
@@ -995,7 +995,72 @@ func randHistory(w *tr.W, rng *rand.Rand, idx, maxops, sweep int) {
 	if mode == 2 {
 		cursor = hi
 	}
+	drainAt := -1
+	if api == "inner" && idx%3 != 1 {
+		drainAt = nops/3 + rng.Intn(nops/2+1)
+	}
 	for i := 0; i < nops && !r.dead; i++ {
+		if i == drainAt {
+			// empty one handle completely by deletes (from the generator's own bookkeeping of what it
+			// holds), clone it, and let the ORIGINAL write first, then the clone
+			h := handle()
+			st.Drains++
+			how := rng.Intn(4)
+			for guard := 0; believed(h) > 0 && guard < 400 && !r.dead; guard++ {
+				switch how {
+				case 0:
+					r.step(act{Op: "delmin", H: h})
+				case 1:
+					r.step(act{Op: "delmax", H: h})
+				default:
+					pk, _ := present(h)
+					r.step(act{Op: "idel", H: h, K: pk})
+				}
+			}
+			if len(r.s.hs) < 5 && !r.dead {
+				r.step(act{Op: "clone", H: h})
+				c := len(r.s.hs)
+				x, y := h, c
+				if rng.Intn(4) == 0 {
+					x, y = c, h
+				}
+				r.step(act{Op: "roi", H: x, K: key()})
+				r.step(act{Op: "len", H: y})
+				r.step(act{Op: "roi", H: y, K: key()})
+				r.step(act{Op: "roi", H: x, K: key()})
+			}
+		}
+		if (i == nops/3 || i == (2*nops)/3) && idx%2 == 0 && !r.dead {
+			// replace sweep: store a new item under EVERY key the handle holds (up to 64), in ascending
+			// or descending order: a replace walks every root-to-leaf path, whatever is full on it
+			h := handle()
+			if api == "wrap" {
+				h = 1
+			}
+			if h <= len(r.sh) {
+				ks := make([]int, 0, len(r.sh[h-1]))
+				for k := range r.sh[h-1] {
+					ks = append(ks, k)
+				}
+				sort.Ints(ks)
+				if rng.Intn(2) == 0 {
+					for a, b := 0, len(ks)-1; a < b; a, b = a+1, b-1 {
+						ks[a], ks[b] = ks[b], ks[a]
+					}
+				}
+				if len(ks) > 64 {
+					ks = ks[:64]
+				}
+				st.ReplaceSweeps++
+				for _, k := range ks {
+					if api == "wrap" {
+						r.step(act{Op: "ins", H: 1, K: k})
+					} else {
+						r.step(act{Op: "roi", H: h, K: k})
+					}
+				}
+			}
+		}
 		phase := (i * 3) / nops // 0 grow, 1 churn, 2 shrink
 		pIns := []int{70, 45, 20}[phase]
 		h := handle()
@@ -1115,6 +1180,117 @@ func randHistory(w *tr.W, rng *rand.Rand, idx, maxops, sweep int) {
 		}
 	}
 	r.finish()
+}
+
+// ------------------------------------------------------------------ clone in every shape class
+
+// cloneShapes enumerates: a tree brought into one SHAPE CLASS (never used; emptied by Delete /
+// DeleteMin / DeleteMax / Clear; one item; root exactly full; just split; just borrowed from a
+// sibling; just merged + root collapsed), then Clone (optionally a second clone), then the FIRST
+// write on the original or on the clone (a new key, a replace, a delete), then reads and a write
+// on the other side, then again on the first.  The shapes are reached by fixed call sequences
+// (ascending inserts 1..2d split a root of degree d; deleting 1 then borrows, deleting 2 merges),
+// nothing is read from the tree to get there.  Every write is followed by the contents of ALL
+// handles, so a write that shows up in the wrong handle is inexplicable at once.
+var shapeClasses = []string{"fresh", "drain-del", "drain-min", "drain-max", "cleared", "cleared-free", "one",
+	"full-root", "split", "borrowed", "merged", "drain-del-big"}
+
+func cloneShapes(w *tr.W, rng *rand.Rand, only int) int {
+	n := 0
+	for _, deg := range []int{2, 3, 4} {
+		for ci, class := range shapeClasses {
+			for first := 0; first < 2; first++ { // who writes first: 0 the original, 1 the clone
+				for kind := 0; kind < 3; kind++ { // 0 new key, 1 a key both hold (replace), 2 delete
+					n++
+					if only > 0 && n%only != 0 {
+						continue
+					}
+					r := newRunner(w, rng, cfg{api: "inner", src: "cloneshape:" + class, deg: deg,
+						fl: []int{-1, 0, 1000}[(ci+first+kind)%3], lo: 1, hi: 2*deg + 3, dumpK: 1, retain: n%2 == 0})
+					full := 2*deg - 1
+					ins := func(lo, hi int) {
+						for k := lo; k <= hi; k++ {
+							r.step(act{Op: "roi", H: 1, K: k})
+						}
+					}
+					switch class {
+					case "fresh":
+					case "drain-del":
+						ins(1, 2)
+						r.step(act{Op: "idel", H: 1, K: 2})
+						r.step(act{Op: "idel", H: 1, K: 1})
+					case "drain-del-big": // through a split, a borrow, a merge and a root collapse down to nothing
+						ins(1, 2*deg)
+						for k := 1; k <= 2*deg; k++ {
+							r.step(act{Op: "idel", H: 1, K: k})
+						}
+					case "drain-min":
+						ins(1, 3)
+						for i := 0; i < 3; i++ {
+							r.step(act{Op: "delmin", H: 1})
+						}
+					case "drain-max":
+						ins(1, 3)
+						for i := 0; i < 3; i++ {
+							r.step(act{Op: "delmax", H: 1})
+						}
+					case "cleared", "cleared-free":
+						ins(1, 2*deg)
+						r.step(act{Op: "clear", H: 1, Fl: class == "cleared-free"})
+					case "one":
+						ins(1, 1)
+					case "full-root":
+						ins(1, full)
+					case "split":
+						ins(1, full+1)
+					case "borrowed":
+						ins(1, full+1)
+						r.step(act{Op: "idel", H: 1, K: 1})
+					case "merged":
+						ins(1, full+1)
+						r.step(act{Op: "idel", H: 1, K: 1})
+						r.step(act{Op: "idel", H: 1, K: 2})
+					}
+					r.step(act{Op: "clone", H: 1})
+					a, b := 1, 2
+					if first == 1 {
+						a, b = 2, 1
+					}
+					if (ci+kind)%2 == 1 { // a second clone of the original before anybody writes
+						r.step(act{Op: "clone", H: 1})
+					}
+					wr := func(h, k int) {
+						switch kind {
+						case 0:
+							r.step(act{Op: "roi", H: h, K: 2*deg + 2 + k})
+						case 1:
+							r.step(act{Op: "roi", H: h, K: deg + k}) // present in the non-empty classes
+						default:
+							r.step(act{Op: "idel", H: h, K: deg + k})
+							r.step(act{Op: "roi", H: h, K: deg + k})
+						}
+					}
+					wr(a, 0)
+					r.step(act{Op: "len", H: b})
+					r.step(act{Op: "get", H: b, K: 2*deg + 2})
+					r.step(act{Op: "scan", H: b, Fn: "Ascend", Fm: 1, Fr: []int{0}, N: 1000})
+					r.step(act{Op: "min", H: b})
+					wr(b, 1)
+					r.step(act{Op: "len", H: a})
+					r.step(act{Op: "scan", H: a, Fn: "Descend", Fm: 1, Fr: []int{0}, N: 1000})
+					wr(a, 1)
+					r.step(act{Op: "delmin", H: b})
+					r.step(act{Op: "delmax", H: a})
+					// closing observation only (the sweeps of finish() are not the point here)
+					r.emitCall(act{Op: "nop"}, true)
+					r.flush()
+					curRunner = nil
+					st.CloneShapes++
+				}
+			}
+		}
+	}
+	return n
 }
 
 // ------------------------------------------------------------------ clones in parallel
@@ -1518,6 +1694,34 @@ func runRaces(w *tr.W, rng *rand.Rand, rounds, keep int, budget time.Duration) (
 			a, b := writers[c%len(writers)], every[(c/len(writers))%len(every)]
 			hotIn = (c/(len(writers)*len(every)))%3 != 2 // two rounds in three on a present key
 			progs = append(progs, []act{mk(a, 0)}, []act{mk(b, 1)})
+		} else if r%4 == 1 {
+			// duel: two goroutines, each a run of calls that keep moving, removing and re-creating the
+			// hot node (hot -> own key -> hot ...), so that the calls of the two overlap for the whole
+			// round even when the goroutines are not released at the same instant (loaded machine)
+			hotIn = true
+			st.Duels++
+			for t := 0; t < 2; t++ {
+				var pr []act
+				own := 10 + t
+				for i, n := 0, 6+rng.Intn(5); i < n; i++ {
+					ver++
+					switch rng.Intn(8) {
+					case 0, 1:
+						pr = append(pr, act{Op: "upd", H: 1, O: hot, K: own, V: ver})
+					case 2, 3:
+						pr = append(pr, act{Op: "upd", H: 1, O: own, K: hot, V: ver})
+					case 4:
+						pr = append(pr, act{Op: "upsert", H: 1, O: hot, K: []int{own, hot}[rng.Intn(2)], V: ver})
+					case 5:
+						pr = append(pr, act{Op: "del", H: 1, K: []int{hot, own}[rng.Intn(2)]})
+					case 6:
+						pr = append(pr, act{Op: "ins", H: 1, K: hot, V: ver})
+					default:
+						pr = append(pr, mk([]string{"get", "AscendGte", "DescendLte"}[rng.Intn(3)], t))
+					}
+				}
+				progs = append(progs, pr)
+			}
 		} else {
 			threads = 2 + rng.Intn(2)
 			hotIn = rng.Intn(3) > 0
@@ -1761,6 +1965,7 @@ func main() {
 	nstress := flag.Int("nstress", 6, "long concurrent wrapper histories")
 	nrace := flag.Int("nrace", 20000, "race rounds on the wrapper (at most)")
 	nracekeep := flag.Int("nracekeep", 1200, "race rounds with real overlap to keep")
+	shapeEvery := flag.Int("shapeevery", 1, "run every k-th clone-in-shape-class scenario (1 = all 216)")
 	racesecs := flag.Int("racesecs", 12, "wall-clock budget of the race rounds (seconds)")
 	sweep := flag.Int("sweep", 4, "probability (percent) of a scan sweep after a write that changed the node structure (always one per handle at the end of a trace)")
 	statf := flag.String("stats", "", "write statistics (json) here")
@@ -1838,6 +2043,7 @@ func main() {
 	for i := 0; i < *nhist; i++ {
 		randHistory(w, rng, i, *maxops, *sweep)
 	}
+	cloneShapes(w, rng, *shapeEvery)
 	for i := 0; i < *npar; i++ {
 		runParallel(w, rng, 2+i%3, 20+rng.Intn(30))
 	}
